@@ -27,6 +27,7 @@ def gen_cases(tier, seed):
                 if tier == "quick" and (si + len(name)) % 2:
                     continue
                 c = {"init": name, "shape": shp, "dtype": ["float32", "float64"][(si + rep) % 2], "req": bool((si + rep) % 3 == 0),
+                     "storage": ["plain", "transposed-view", "plain", "strided-view"][(si // 2 + rep + len(name)) % 4],
                      "seed": int(rng.integers(2 ** 31)), "np_scalar_args": bool((si + rep + len(name)) % 4 == 0),
                      "under_no_grad": bool((si + rep) % 3 == 0)}
                 if name == "uniform_":
@@ -42,6 +43,22 @@ def gen_cases(tier, seed):
                     c["args"] = {"val": float(rng.uniform(-5, 5))}
                 else:
                     c["args"] = {}
+                cases.append(c)
+        # small tensors with an odd fan_in + fan_out (the formulas are exact there too): many fills pooled into one sample
+        for name in ("xavier_uniform_", "xavier_normal_", "kaiming_uniform_", "kaiming_normal_", "uniform_", "normal_"):
+            for shp in ([3, 4], [10, 1], [4, 3, 3], [2, 1, 3, 3], [5, 2]):
+                if tier == "quick" and (len(name) + shp[0] + rep) % 3:
+                    continue
+                c = {"init": name, "shape": shp, "dtype": ["float32", "float64"][(shp[0] + rep) % 2], "req": False, "seed": int(rng.integers(2 ** 31)),
+                     "pool": 20000 // int(np.prod(shp)) + 1, "storage": "plain"}
+                if name == "uniform_":
+                    c["args"] = {"a": -0.5, "b": 1.5}
+                elif name == "normal_":
+                    c["args"] = {"mean": 1.0, "std": 0.02}
+                elif name.startswith("xavier"):
+                    c["args"] = {"gain": float(rng.choice([1.0, 5.0 / 3]))}
+                else:
+                    c["args"] = {"a": float(rng.choice([0, 0.2])), "mode": ["fan_in", "fan_out"][int(rng.integers(2))], "nonlinearity": "leaky_relu"}
                 cases.append(c)
         for layer in ("Linear", "Conv1d", "Conv2d", "Linear-fan1", "Conv1d-fan1", "Conv2d-nonsquare"):
             cases.append({"init": "layer:" + layer, "seed": int(rng.integers(2 ** 31)), "bias": True})
@@ -177,7 +194,17 @@ def run_case(ns, ctx, c):
     shp = tuple(c["shape"])
     dt = np.dtype(c["dtype"])
     a = c["args"]
-    t = T(np.full(shp, 7.0, dtype=dt), requires_grad=c["req"])
+    def fresh():
+        st = c.get("storage", "plain")
+        if st == "transposed-view" and len(shp) >= 2:
+            arr = np.full(shp[::-1], 7.0, dtype=dt).transpose()          # same shape, Fortran-ordered view: the initialiser fills the tensor it is given
+        elif st == "strided-view" and len(shp) >= 1:
+            big_ = np.full(shp[:-1] + (2 * shp[-1],), 7.0, dtype=dt)
+            arr = big_[..., ::2]
+        else:
+            arr = np.full(shp, 7.0, dtype=dt)
+        return T(arr, requires_grad=c["req"])
+    t = fresh()
     fn = getattr(init, name)
 
     npsc = (lambda v: np.float64(v)) if c.get("np_scalar_args") else (lambda v: v)      # hyper-parameters given as NumPy scalars
@@ -231,9 +258,15 @@ def run_case(ns, ctx, c):
     x = t.data.astype(np.float64).ravel()
     # every fill is a fresh, independent sample / constant: a second tensor of the same shape and dtype filled right afterwards shares no storage
     # with the first, keeps its values when the first is updated in place (what optimizers do), and - for the random fillers - is a different draw
+    if c.get("pool"):
+        parts = [x]
+        for _ in range(int(c["pool"]) - 1):
+            call()
+            parts.append(t.data.astype(np.float64).ravel().copy())
+        x = np.concatenate(parts)
     first = t.data.copy()
     t_first = t
-    t = T(np.full(shp, 7.0, dtype=dt), requires_grad=c["req"])
+    t = fresh()
     try:
         call()
     except Exception as e:
@@ -262,7 +295,7 @@ def run_case(ns, ctx, c):
         for which, arr in (("first", first), ("second", second)):
             if not np.all(arr == np.asarray(want, dtype=dt)):
                 viol.append(V(f"{name}:value", f"tensor not filled with {want} ({which} fill)"))
-        t3 = T(np.full(shp, 7.0, dtype=dt), requires_grad=c["req"])
+        t3 = fresh()
         t_first.data[...] = -3.0                                     # the first tensor moves on (training); a later fill is still the constant
         t = t3
         call()
